@@ -38,6 +38,12 @@ def stepLine (st : JState) (line : String) : JState × String :=
     match line.splitOn " " with
     | _ :: eng :: _ => ({ engine := eng }, "ok")
     | _ => (st, "ERR bad history line")
+  else if line.startsWith "#state " then
+    match SerdeJudge.parseDump ((line.splitOn " ").filter (· ≠ "")) with
+    | some d => match SerdeJudge.checkDump d with
+      | none => (st, "ok")
+      | some m => (st, "INV " ++ m)
+    | none => (st, "ERR unparsable #state line")
   else if line.startsWith "#" && !(line.startsWith "#arena" || line.startsWith "#fill") then (st, "ok")
   else
     let (lhs, rhs) := splitArrow line
@@ -62,6 +68,12 @@ def stepLine (st : JState) (line : String) : JState × String :=
         | none => (st, none)
         | some r =>
           if st.specDead then (st, none)
+          else if lhs.startsWith "de_bytes" then
+            (if r.trimAscii.toString.startsWith "panic" then
+              ({ st with specDead := true }, some "the deserialiser panicked on malformed bytes instead of returning an error")
+             else if !((r.splitOn " ").contains "leak=0") then
+              ({ st with specDead := true }, some ("components decoded from malformed bytes were leaked or dropped twice: " ++ r))
+             else (st, none))
           else if r.trimAscii.toString == "panic" && !(lhs.startsWith "spawn_cb_at") then
             ({ st with specDead := true }, some "operation panicked inside hecs")
           else match WorldJudge.specLine st.specs lhs r with
@@ -79,7 +91,7 @@ def stepLine (st : JState) (line : String) : JState × String :=
             match rhs with
             | none => ({ st with worlds := ws }, "MODEL " ++ model)
             | some r =>
-              if r.trimAscii.toString == model then ({ st with worlds := ws }, "ok")
+              if (WorldJudge.normRhs lhs r).trimAscii.toString == model then ({ st with worlds := ws }, "ok")
               else ({ st with worlds := ws, diverged := true }, "DIFF model=" ++ model)
     | "bits" =>
       match BitsJudge.stepLine lhs with
